@@ -6,8 +6,8 @@ from domhist import fmt_exp, fmt_cst, gen_exp, gen_cst, ev, holds, tdiv, trem, p
 
 # ------------------------------------------------------------------ generation
 
-def rand_stmt(rng, nv, small=True, allow=("assign", "arith", "bit", "assume", "havoc", "select"), bwd_safe=False):
-    k = rng.choices(["assign", "arith", "bit", "assume", "havoc", "select"], [8, 8, 1, 3, 1, 1])[0]
+def rand_stmt(rng, nv, small=True, allow=("assign", "arith", "bit", "assume", "havoc", "select"), bwd_safe=False, more_select=False):
+    k = rng.choices(["assign", "arith", "bit", "assume", "havoc", "select"], [8, 8, 1, 3, 1, 4 if more_select else 1])[0]
     if k not in allow or (bwd_safe and k == "select"):
         k = "assign"
     if k == "assign":
@@ -60,7 +60,7 @@ def gen_program(rng, opts=None):
 
     def fill(b, n=None):
         for _ in range(rng.randint(0, 3) if n is None else n):
-            blocks[b].append(rand_stmt(rng, nv, bwd_safe=opts.get("bwd_safe", False)))
+            blocks[b].append(rand_stmt(rng, nv, bwd_safe=opts.get("bwd_safe", False), more_select=opts.get("more_select", False)))
         maybe_assert(b)
 
     def build(cur, depth):
